@@ -343,11 +343,19 @@ func (t *Tap) wrap(c net.Conn) net.Conn {
 	return tc
 }
 
+// Write records the bytes *before* handing them to the connection: the peer
+// may react (and the test may look at the tap) before this goroutine runs
+// again after the underlying Write returned. Writes on a connection are
+// serialised by the transport's single writer goroutine; a short write
+// un-records the unsent tail.
 func (c *tapConn) Write(b []byte) (int, error) {
+	c.mu.Lock()
+	c.c2s.Write(b)
+	c.mu.Unlock()
 	n, err := c.Conn.Write(b)
-	if n > 0 {
+	if n < len(b) {
 		c.mu.Lock()
-		c.c2s.Write(b[:n])
+		c.c2s.Truncate(c.c2s.Len() - (len(b) - n))
 		c.mu.Unlock()
 	}
 	return n, err
